@@ -42,6 +42,27 @@ def run (t : Tier) : Emit Unit := do
           let s' := { s with header := s.header.map fun h => { h with sectionSyntaxIndicator := !h.sectionSyntaxIndicator, privateBit := !h.privateBit, sectionLength := (h.sectionLength + 7) % 4096 } }
           let d' : PSIData := { pointerField := 0, sections := [s'] }
           emit "C13" { op := "writePSI", args := [("psi", d'.toJson)], model := showWrite (writePSIData d'), spec := none, tag := "write-header-flags-contradict-table-id" }
+  -- (1h) a NIT whose transport streams carry descriptor loops of 256 bytes and more (all 12 bits of the loop length)
+  for n in [2, 3] do
+    let mut tss : List NITDataTransportStream := []
+    for j in [0:n] do
+      let mut ds : List Descriptor := []
+      for i in [0:2 + j] do
+        let body ← liftGen (randBytes (if i % 2 = 0 then 200 else 130))
+        ds := ds ++ [({ tag := 0x80 + i, length := body.length, userDefined := body } : Descriptor)]
+      tss := tss ++ [{ originalNetworkID := 1 + j, transportDescriptors := ds, transportStreamID := 10 + j }]
+    let sh ← liftGen (genSyntaxHeader 7)
+    let (s, bs) := mkSection 0x40 false (some sh) { nit := some { networkDescriptors := [], networkID := 7, transportStreams := tss } }
+    emit "C13" (parseCase (Spec.unitEncode 0 [bs] 0) (some { pointerField := 0, sections := [s] }) "parse-NIT-long-transport-descriptor-loops")
+  -- (1i) the largest PAT sections the writer can be asked for: 251..253 programmes (section_length 1013..1021)
+  for n in [251, 252, 253] do
+    let progs := (List.range n).map fun i => ({ programMapID := 0x20 + i, programNumber := i + 1 } : PATProgram)
+    let sh ← liftGen (genSyntaxHeader 3)
+    let (s, bs) := mkSection 0 false (some sh) { pat := some { programs := progs, transportStreamID := 3 } }
+    let d : PSIData := { pointerField := 0, sections := [s] }
+    emit "C13" { op := "writePSI", args := [("psi", d.toJson)], model := showWrite (writePSIData d),
+                 spec := some (showWrite (.ok (Spec.unitEncode 0 [bs] 0))), tag := "write-PAT-largest" }
+    emit "C13" (parseCase (Spec.unitEncode 0 [bs] 0) (some d) "parse-PAT-largest")
   -- (1g) the writer with pointer fields 0..40 (filler bytes of value 0 in front of the first section)
   for ptr in [0, 1, 2, 7, 8, 9, 10, 16, 17, 31, 40] do
     let (s, bs) ← liftGen (genSectionOfKind (ptr % 2) false)
